@@ -1015,7 +1015,10 @@ func TestVerifC10(t *testing.T) {
 	dStop := time.Since(tPhase)
 	tPhase = time.Now()
 	w.availScenarios(vlib.NewRand("C10-availability"))
-	out.Note(fmt.Sprintf("history phase %.1fs, shutdown scenarios %.1fs, availability scenarios %.1fs", dHist.Seconds(), dStop.Seconds(), time.Since(tPhase).Seconds()))
+	dAvail := time.Since(tPhase)
+	tPhase = time.Now()
+	w.packetPath(vlib.NewRand("C10-packets"))
+	out.Note(fmt.Sprintf("history phase %.1fs, shutdown scenarios %.1fs, availability scenarios %.1fs, packet path %.1fs", dHist.Seconds(), dStop.Seconds(), dAvail.Seconds(), time.Since(tPhase).Seconds()))
 	w.rawExhaustive()
 	w.directRandom(r, vlib.Budget(8000, 150000))
 	w.rawRandom(r, vlib.Budget(8000, 150000))
@@ -1036,6 +1039,10 @@ func c10Replay(w *c10World, path string) {
 		w.t.Fatal(err)
 	}
 	for _, line := range strings.Split(string(b), "\n") {
+		if strings.HasPrefix(line, "c10pkt|") {
+			w.pktReplay(line)
+			continue
+		}
 		if !strings.HasPrefix(line, "c10replay|") {
 			continue
 		}
